@@ -2144,3 +2144,896 @@ executed model returns one candidate at 59/14 ≈ 4.21 cells (within half a cell
 example : cylMask 1 0 1 4 8 (43/10) (11/5) 4 = true := by decide +kernel
 example : Cyl.candidates 4 8 false (cylMask 1 0 1 4 8 (43/10) (11/5)) = some [(59/14, 13)] := by decide +kernel
 end DV.C01
+
+/-! ### cylindrical grids with periodic z: clusters of several droplets, the padded analysis -/
+
+namespace DV.C01
+open Finset BigOperators DV.Merge DV.MergeInv DV.Label DV.LabelInv DV.GridGeom DV.Render DV.BallConn DV.WrapDiff DV.C02 DV.Cyl Relation
+
+theorem maskConn_gridConn (shape : List ℕ) (periodic : List Bool) (mask : ℕ → Bool) (hpos : ∀ n ∈ shape, 0 < n)
+    {a b : ℕ} (h : MaskConn mask (inboxEdges shape) a b) : GridConn shape periodic mask a b := by
+  refine EqvGen.mono ?_ a b h
+  rintro x y ⟨mx, my, hxy⟩
+  refine ⟨mx, my, ?_⟩
+  rcases hxy with rfl | ⟨⟨ax, l, h⟩, he, rfl, rfl⟩
+  · exact Or.inl rfl
+  · exact Or.inr ⟨ax, Or.inl ((inboxEdges_iff shape hpos ax _ _).mp he)⟩
+
+theorem foldl_max_mem (l : List ℕ) (a : ℕ) : l.foldl max a = a ∨ l.foldl max a ∈ l := by
+  induction l generalizing a with
+  | nil => left; rfl
+  | cons x xs ih =>
+    simp only [List.foldl_cons]
+    rcases ih (max a x) with h | h
+    · rcases le_total a x with hax | hax
+      · right; rw [h, max_eq_right hax]; simp
+      · left; rw [h, max_eq_left hax]
+    · right; exact List.mem_cons_of_mem _ h
+
+/-- **The clusters of a labelled image are its label classes**: every cluster is the set of all cells carrying the
+label of some image cell, and every image cell's label class is a cluster. -/
+theorem clustersOf_classes (shape : List ℕ) (mask : ℕ → Bool) (hmask : ∀ c, mask c = true → c < numCells shape) :
+    let L := labelFn shape mask
+    (∀ cl ∈ clustersOf (labelExec shape mask), ∃ c0, mask c0 = true ∧
+      cl.cells = (List.range (numCells shape)).filter fun c => L c == L c0) ∧
+    (∀ c0, mask c0 = true → ∃ cl ∈ clustersOf (labelExec shape mask),
+      cl.cells = (List.range (numCells shape)).filter fun c => L c == L c0) := by
+  intro L
+  obtain ⟨hpos, _, _, hgap⟩ := labelExec_isLabelling shape mask hmask
+  set labels := labelExec shape mask with hlabels
+  have hL : ∀ c, L c = labels.getD c 0 := fun c => rfl
+  have hlen : labels.length = numCells shape := labelExec_length shape mask
+  set K := labels.foldl max 0 with hK
+  -- the maximum is attained at an image cell (or is 0)
+  have hKatt : K = 0 ∨ ∃ c, mask c = true ∧ L c = K := by
+    rcases foldl_max_mem labels 0 with h | h
+    · left; exact h
+    · obtain ⟨i, hi, hie⟩ := List.getElem_of_mem h
+      by_cases h0 : K = 0
+      · left; exact h0
+      · right
+        have : L i = K := by rw [hL, List.getD_eq_getElem?_getD, List.getElem?_eq_getElem hi]; simpa using hie
+        have hp : 0 < L i := by omega
+        exact ⟨i, (hpos i).mp hp, this⟩
+  constructor
+  · intro cl hcl
+    unfold clustersOf at hcl
+    simp only [List.mem_map, List.mem_range] at hcl
+    obtain ⟨j, hj, rfl⟩ := hcl
+    rcases hKatt with h0 | ⟨cK, mK, hcK⟩
+    · omega
+    · have hjK : j + 1 ≤ L cK := by omega
+      obtain ⟨c', hc'⟩ := hgap cK mK (j + 1) (by omega) hjK
+      have hc'' : L c' = j + 1 := hc'
+      have hp' : 0 < L c' := by omega
+      refine ⟨c', (hpos c').mp hp', ?_⟩
+      simp only [hlen]
+      apply List.filter_congr
+      intro c _
+      rw [hc'', hL]
+  · intro c0 m0
+    have hp : 0 < L c0 := (hpos c0).mpr m0
+    have hle : L c0 ≤ K := by rw [hL]; exact getD_le_foldl_max labels c0
+    refine ⟨⟨L c0 - 1 + 1, (List.range labels.length).filter fun c => labels.getD c 0 == L c0 - 1 + 1⟩, ?_, ?_⟩
+    · unfold clustersOf
+      simp only [List.mem_map, List.mem_range]
+      exact ⟨L c0 - 1, by omega, rfl⟩
+    · simp only [hlen]
+      apply List.filter_congr
+      intro c _
+      rw [hL c, show L c0 - 1 + 1 = L c0 by omega]
+
+
+/-- **Several droplets on a non-periodic (r, z) grid: the clusters found by the cylindrical routine are the droplets.**
+If the rendered droplets are separated on the grid, every cluster of the labelled image consists of exactly the cells
+covered by one droplet, and every droplet that covers a cell is a cluster. -/
+theorem cyl_clusters_are_balls (dr zl dz : ℚ) (nr nzI : ℕ) (hdr : 0 < dr) (hdz : 0 < dz) (hnr : 0 < nr) (hnz : 0 < nzI)
+    (balls : List (List ℚ × ℚ)) (hlen : ∀ b ∈ balls, b.1.length = 2)
+    (hsep : Separated (cylAxes dr zl dz nr nzI) balls) :
+    let axes := cylAxes dr zl dz nr nzI
+    let mask := emulsionMask axes balls
+    (∀ cl ∈ clustersOf (labelExec [nr, nzI] mask), ∃ b ∈ balls, (∃ c, ballMask axes b.1 b.2 c = true) ∧
+      cl.cells = (List.range (nr * nzI)).filter (ballMask axes b.1 b.2)) ∧
+    (∀ b ∈ balls, (∃ c, ballMask axes b.1 b.2 c = true) → ∃ cl ∈ clustersOf (labelExec [nr, nzI] mask),
+      cl.cells = (List.range (nr * nzI)).filter (ballMask axes b.1 b.2)) := by
+  intro axes mask
+  have hwf : ∀ b ∈ balls, GridWF axes b.1 := by
+    intro b hb
+    refine ⟨?_, hlen b hb⟩
+    intro a ha
+    simp only [axes, cylAxes, List.mem_cons, List.not_mem_nil, or_false] at ha
+    rcases ha with rfl | rfl
+    · exact ⟨hdr, hnr⟩
+    · exact ⟨hdz, hnz⟩
+  have hpos : ∀ n ∈ [nr, nzI], 0 < n := by
+    intro n hn; simp only [List.mem_cons, List.not_mem_nil, or_false] at hn; rcases hn with rfl | rfl <;> assumption
+  have hper : ∀ ax, ([false, false] : List Bool).getD ax false = false := by
+    intro ax; rcases ax with _ | _ | ax <;> simp
+  have hmlt : ∀ c, mask c = true → c < numCells [nr, nzI] := by
+    intro c hc
+    obtain ⟨b, _, hb⟩ := (emulsionMask_iff axes balls c).mp hc
+    exact ((ballMask_iff axes b.1 b.2 c).mp hb).1
+  obtain ⟨hposL, heq, _, _⟩ := labelExec_isLabelling [nr, nzI] mask hmlt
+  obtain ⟨hcl1, hcl2⟩ := clustersOf_classes [nr, nzI] mask hmlt
+  rw [cyl_numCells] at hcl1 hcl2
+  -- the label class of a cell of droplet `b` is `b`
+  have hclass : ∀ b ∈ balls, ∀ c0, ballMask axes b.1 b.2 c0 = true → ∀ c,
+      (labelFn [nr, nzI] mask c == labelFn [nr, nzI] mask c0) = ballMask axes b.1 b.2 c := by
+    intro b hb c0 hc0 c
+    have m0 : mask c0 = true := (emulsionMask_iff axes balls c0).mpr ⟨b, hb, hc0⟩
+    rw [Bool.eq_iff_iff, beq_iff_eq]
+    constructor
+    · intro hl
+      have hp : 0 < labelFn [nr, nzI] mask c := by rw [hl]; exact (hposL c0).mpr m0
+      have mc : mask c = true := (hposL c).mp hp
+      have hconn := maskConn_gridConn [nr, nzI] [false, false] mask hpos ((heq c c0 mc m0).mp hl)
+      obtain ⟨b', hb', h1, h2⟩ := (emulsion_components axes balls hwf hsep mc m0).mp hconn
+      by_cases hbb : b' = b
+      · subst hbb; exact h1
+      · exact absurd rfl (hsep b' hb' b hb hbb c0 c0 h2 hc0).1
+    · intro hc
+      have mc : mask c = true := (emulsionMask_iff axes balls c).mpr ⟨b, hb, hc⟩
+      have hconn := (emulsion_components axes balls hwf hsep mc m0).mpr ⟨b, hb, hc, hc0⟩
+      exact (heq c c0 mc m0).mpr (gridConn_nonperiodic [nr, nzI] [false, false] mask hpos hper hconn)
+  constructor
+  · intro cl hcl
+    obtain ⟨c0, m0, hcells⟩ := hcl1 cl hcl
+    obtain ⟨b, hb, hc0⟩ := (emulsionMask_iff axes balls c0).mp m0
+    refine ⟨b, hb, ⟨c0, hc0⟩, ?_⟩
+    rw [hcells]
+    exact List.filter_congr (fun c _ => hclass b hb c0 hc0 c)
+  · rintro b hb ⟨c0, hc0⟩
+    have m0 : mask c0 = true := (emulsionMask_iff axes balls c0).mpr ⟨b, hb, hc0⟩
+    obtain ⟨cl, hcl, hcells⟩ := hcl2 c0 m0
+    refine ⟨cl, hcl, ?_⟩
+    rw [hcells]
+    exact List.filter_congr (fun c _ => hclass b hb c0 hc0 c)
+
+
+theorem zsum_lt (nzp : ℕ) (b : ℚ) : ∀ cells : List ℕ, cells ≠ [] → (∀ c ∈ cells, (zIdx nzp c : ℚ) + 1 / 2 < b) →
+    (cells.map fun c => (zIdx nzp c : ℚ)).sum < (cells.length : ℚ) * (b - 1 / 2)
+  | [], h, _ => absurd rfl h
+  | [c], _, h => by
+    have := h c (by simp)
+    simp; linarith
+  | c :: c' :: cs, _, h => by
+    have ih := zsum_lt nzp b (c' :: cs) (by simp) (fun x hx => h x (List.mem_cons_of_mem _ hx))
+    have := h c (by simp)
+    simp only [List.map_cons, List.sum_cons, List.length_cons] at ih ⊢
+    push_cast at ih ⊢
+    linarith
+
+theorem zsum_gt (nzp : ℕ) (b : ℚ) : ∀ cells : List ℕ, cells ≠ [] → (∀ c ∈ cells, b < (zIdx nzp c : ℚ) + 1 / 2) →
+    (cells.length : ℚ) * (b - 1 / 2) < (cells.map fun c => (zIdx nzp c : ℚ)).sum
+  | [], h, _ => absurd rfl h
+  | [c], _, h => by
+    have := h c (by simp)
+    simp; linarith
+  | c :: c' :: cs, _, h => by
+    have ih := zsum_gt nzp b (c' :: cs) (by simp) (fun x hx => h x (List.mem_cons_of_mem _ hx))
+    have := h c (by simp)
+    simp only [List.map_cons, List.sum_cons, List.length_cons] at ih ⊢
+    push_cast at ih ⊢
+    linarith
+
+/-- the height of a non-empty cluster is a mean: it lies strictly between strict bounds on its cells' heights -/
+theorem zpos_lt (nzp : ℕ) (cl : Cluster) (hne : cl.cells ≠ []) (b : ℚ)
+    (h : ∀ c ∈ cl.cells, (zIdx nzp c : ℚ) + 1 / 2 < b) : cl.zpos nzp < b := by
+  unfold Cluster.zpos
+  rw [foldl_add_rat, zero_add]
+  have hpos : (0 : ℚ) < cl.cells.length := by exact_mod_cast List.length_pos_iff.mpr hne
+  have := zsum_lt nzp b cl.cells hne h
+  have : (cl.cells.map fun c => (zIdx nzp c : ℚ)).sum / (cl.cells.length : ℚ) < b - 1 / 2 := by
+    rw [div_lt_iff₀ hpos]; linarith
+  linarith
+
+theorem lt_zpos (nzp : ℕ) (cl : Cluster) (hne : cl.cells ≠ []) (b : ℚ)
+    (h : ∀ c ∈ cl.cells, b < (zIdx nzp c : ℚ) + 1 / 2) : b < cl.zpos nzp := by
+  unfold Cluster.zpos
+  rw [foldl_add_rat, zero_add]
+  have hpos : (0 : ℚ) < cl.cells.length := by exact_mod_cast List.length_pos_iff.mpr hne
+  have := zsum_gt nzp b cl.cells hne h
+  have : b - 1 / 2 < (cl.cells.map fun c => (zIdx nzp c : ℚ)).sum / (cl.cells.length : ℚ) := by
+    rw [lt_div_iff₀ hpos]; linarith
+  linarith
+
+section cylball
+variable (dr zl dz : ℚ) (nr nzI : ℕ) (z R : ℚ)
+
+/-- the cells covered by an on-axis droplet, as a cluster of the cylindrical routine -/
+def cylCov : List ℕ := (List.range (nr * nzI)).filter (cylMask dr zl dz nr nzI z R)
+
+theorem mem_cylCov (c : ℕ) : c ∈ cylCov dr zl dz nr nzI z R ↔ cylMask dr zl dz nr nzI z R c = true := by
+  unfold cylCov
+  simp only [List.mem_filter, List.mem_range, and_iff_right_iff_imp]
+  intro h; exact ((cylMask_iff dr zl dz nr nzI z R c).mp h).1
+
+/-- a covered cell lies within `R` of the droplet's height -/
+theorem cylCov_z (hR : 0 ≤ R) {c : ℕ} (hc : cylMask dr zl dz nr nzI z R c = true) :
+    |zl + (((c % nzI : ℕ) : ℚ) + 1 / 2) * dz - z| < R := by
+  have h := ((cylMask_iff dr zl dz nr nzI z R c).mp hc).2
+  set u := zl + (((c % nzI : ℕ) : ℚ) + 1 / 2) * dz - z
+  set v := (((c / nzI % nr : ℕ) : ℚ) + 1 / 2) * dr
+  have : u * u < R * R := by nlinarith [mul_self_nonneg v]
+  exact abs_lt_of_sq_lt_sq' (by nlinarith) hR |> fun ⟨a, b⟩ => abs_lt.mpr ⟨a, b⟩
+
+/-- a droplet that covers a cell covers a cell on the axis -/
+theorem cylCov_onAxis (hdr : 0 < dr) (hnr : 0 < nr) (hnz : 0 < nzI) (lbl : ℕ)
+    (hne : ∃ c, cylMask dr zl dz nr nzI z R c = true) :
+    Cluster.onAxis nzI (⟨lbl, cylCov dr zl dz nr nzI z R⟩ : Cluster) = true := by
+  obtain ⟨c0, hc0⟩ := hne
+  have hc0' := (cylMask_iff dr zl dz nr nzI z R c0).mp hc0
+  unfold Cluster.onAxis rIdx
+  simp only [List.any_eq_true, beq_iff_eq]
+  refine ⟨c0 % nzI, ?_, Nat.div_eq_of_lt (Nat.mod_lt _ hnz)⟩
+  rw [mem_cylCov]
+  have hlt : c0 % nzI < nr * nzI := lt_of_lt_of_le (Nat.mod_lt _ hnz) (Nat.le_mul_of_pos_left _ hnr)
+  refine (cylMask_iff dr zl dz nr nzI z R _).mpr ⟨hlt, ?_⟩
+  rw [Nat.div_eq_of_lt (Nat.mod_lt _ hnz), Nat.mod_mod, Nat.zero_mod]
+  refine lt_of_le_of_lt ?_ hc0'.2
+  have hi : (0 : ℚ) ≤ ((c0 / nzI % nr : ℕ) : ℚ) := Nat.cast_nonneg _
+  push_cast
+  nlinarith [mul_pos hdr hdr, mul_nonneg (mul_nonneg hi hi) (mul_pos hdr hdr).le, mul_nonneg hi (mul_pos hdr hdr).le]
+
+theorem cylCov_weight (lbl : ℕ) : Cluster.weight nzI (⟨lbl, cylCov dr zl dz nr nzI z R⟩ : Cluster)
+    = ((cylCov dr zl dz nr nzI z R).map fun c => 2 * (c / nzI) + 1).sum := by
+  unfold Cluster.weight rIdx
+  rw [foldl_add_nat]; simp
+
+/-- **half-cell bound for the height of a droplet that lies inside the image along z** -/
+theorem cylCov_zpos (hdr : 0 < dr) (hdz : 0 < dz) (hnr : 0 < nr) (hnz : 0 < nzI) (hR : 0 ≤ R) (lbl : ℕ)
+    (hbox : zl + R ≤ z ∧ z + R ≤ zl + dz * nzI) (hne : ∃ c, cylMask dr zl dz nr nzI z R c = true) :
+    |zl + Cluster.zpos nzI (⟨lbl, cylCov dr zl dz nr nzI z R⟩ : Cluster) * dz - z| < dz / 2 := by
+  set axes := cylAxes dr zl dz nr nzI with haxes
+  set mask := cylMask dr zl dz nr nzI z R with hmask
+  have hwf : GridWF axes [0, z] := cyl_wf dr zl dz nr nzI z hdr hdz hnr hnz
+  obtain ⟨c0, hc0⟩ := hne
+  have hc0' := (cylMask_iff dr zl dz nr nzI z R c0).mp hc0
+  unfold Cluster.zpos zIdx
+  rw [foldl_add_rat, zero_add]
+  simp only
+  have hSne : ((Finset.range (numCells (shapeOf axes))).filter fun c => ballMask axes [0, z] R c = true).Nonempty :=
+    ⟨c0, by simp only [Finset.mem_filter, Finset.mem_range]; exact ⟨by rw [cyl_shape, cyl_numCells]; exact hc0'.1, hc0⟩⟩
+  have hres : AxisResolved (axes.getD 1 default) (([0, z] : List ℚ).getD 1 0) R := by
+    refine ⟨hR, fun hp => by simp [haxes, cylAxes] at hp, fun _ => ?_⟩
+    simp only [haxes, cylAxes, List.getD_cons_succ, List.getD_cons_zero, Axis.length]
+    exact hbox
+  have hmean := ball_offset_mean axes [0, z] hwf R (k := 1) (by simp [haxes, cylAxes]) hres hSne
+  have hN : numCells (shapeOf axes) = nr * nzI := cyl_numCells nr nzI
+  rw [hN] at hmean
+  have hU : ∀ c, U axes [0, z] c 1 = zl + (((c % nzI : ℕ) : ℚ) + 1 / 2) * dz - z := by
+    intro c
+    rw [U_eq]
+    show Axis.diff _ _ (coordOf [nr, nzI] c 1) = _
+    unfold coordOf
+    rw [cyl_unflat]
+    simp [haxes, cylAxes, Axis.diff, Axis.centre]
+  simp only [hU] at hmean
+  change |∑ c ∈ (Finset.range (nr * nzI)).filter (fun c => mask c = true), _| <
+    (((Finset.range (nr * nzI)).filter (fun c => mask c = true)).card : ℚ) * _ at hmean
+  unfold cylCov
+  rw [list_filter_sum, list_filter_card]
+  set S := (Finset.range (nr * nzI)).filter (fun c => mask c = true) with hS
+  have hcard : (0 : ℚ) < S.card := by
+    have : S.Nonempty := ⟨c0, by simp only [hS, Finset.mem_filter, Finset.mem_range]; exact ⟨hc0'.1, hc0⟩⟩
+    exact_mod_cast this.card_pos
+  have hsum : ∑ c ∈ S, (zl + (((c % nzI : ℕ) : ℚ) + 1 / 2) * dz - z)
+      = (S.card : ℚ) * (zl + dz / 2 - z) + dz * ∑ c ∈ S, ((c % nzI : ℕ) : ℚ) := by
+    rw [Finset.mul_sum, Finset.card_eq_sum_ones]
+    push_cast
+    rw [Finset.sum_mul, ← Finset.sum_add_distrib]
+    apply Finset.sum_congr rfl; intro c _; ring
+  rw [hsum] at hmean
+  have key : zl + ((∑ c ∈ S, ((c % nzI : ℕ) : ℚ)) / S.card + 1 / 2) * dz - z
+      = ((S.card : ℚ) * (zl + dz / 2 - z) + dz * ∑ c ∈ S, ((c % nzI : ℕ) : ℚ)) / S.card := by
+    field_simp; ring
+  have hdx : (axes.getD 1 default).dx = dz := rfl
+  rw [hdx] at hmean
+  rw [key, abs_div, abs_of_pos hcard, div_lt_iff₀ hcard]
+  linarith
+
+end cylball
+
+/-! ### cylindrical grids with periodic z: the padded analysis -/
+section cylper
+variable (dr zlo dz : ℚ) (nr nz : ℕ) (z0 R : ℚ)
+
+/-- sharp PERIODIC image of a droplet centred on the axis at height `z0` (the rendering of C03 on a cylindrical grid
+that is periodic in z) -/
+def cylMaskP : ℕ → Bool := ballMask [⟨0, dr, nr, false⟩, ⟨zlo, dz, nz, true⟩] [0, z0] R
+
+theorem cylMaskP_iff (c : ℕ) : cylMaskP dr zlo dz nr nz z0 R c = true ↔
+    c < nr * nz ∧ (((c / nz % nr : ℕ) : ℚ) + 1 / 2) * dr * ((((c / nz % nr : ℕ) : ℚ) + 1 / 2) * dr)
+      + wrapDiff (dz * nz) (zlo + (((c % nz : ℕ) : ℚ) + 1 / 2) * dz - z0)
+        * wrapDiff (dz * nz) (zlo + (((c % nz : ℕ) : ℚ) + 1 / 2) * dz - z0) < R * R := by
+  unfold cylMaskP
+  rw [ballMask_iff]
+  have hs : shapeOf [⟨0, dr, nr, false⟩, ⟨zlo, dz, nz, true⟩] = [nr, nz] := rfl
+  rw [hs, cyl_numCells]
+  unfold D
+  rw [hs, cyl_unflat]
+  simp [dist2r, Axis.diff, Axis.centre, Axis.length]
+
+/-- the `k`-th periodic image of the droplet -/
+def ballAt (k : ℤ) : List ℚ × ℚ := ([0, z0 + (k : ℚ) * (dz * nz)], R)
+
+/-- the five periodic images of the droplet that can reach into the padded image -/
+def balls5 : List (List ℚ × ℚ) :=
+  [ballAt dz nz z0 R (-2), ballAt dz nz z0 R (-1), ballAt dz nz z0 R 0, ballAt dz nz z0 R 1, ballAt dz nz z0 R 2]
+
+theorem mem_balls5 (b : List ℚ × ℚ) : b ∈ balls5 dz nz z0 R ↔ ∃ k : ℤ, -2 ≤ k ∧ k ≤ 2 ∧ b = ballAt dz nz z0 R k := by
+  unfold balls5
+  simp only [List.mem_cons, List.not_mem_nil, or_false]
+  constructor
+  · rintro (rfl | rfl | rfl | rfl | rfl)
+    exacts [⟨-2, by omega, by omega, rfl⟩, ⟨-1, by omega, by omega, rfl⟩, ⟨0, by omega, by omega, rfl⟩,
+      ⟨1, by omega, by omega, rfl⟩, ⟨2, by omega, by omega, rfl⟩]
+  · rintro ⟨k, h1, h2, rfl⟩
+    have : k = -2 ∨ k = -1 ∨ k = 0 ∨ k = 1 ∨ k = 2 := by omega
+    rcases this with rfl | rfl | rfl | rfl | rfl <;> simp
+
+/-- **The wrap-padded image of the periodic rendering is the NON-periodic rendering of the droplet's periodic images
+on the three-fold grid.** -/
+theorem padded_eq_emulsion (hdz : 0 < dz) (hnz : 0 < nz) (hz0 : zlo ≤ z0 ∧ z0 < zlo + dz * nz) (c : ℕ) :
+    padded nz (cylMaskP dr zlo dz nr nz z0 R) c =
+      emulsionMask (cylAxes dr (zlo - dz * nz) dz nr (3 * nz)) (balls5 dz nz z0 R) c := by
+  have hL : 0 < dz * nz := mul_pos hdz (by exact_mod_cast hnz)
+  rw [Bool.eq_iff_iff, emulsionMask_iff]
+  unfold padded rIdx zIdx
+  rw [cylMaskP_iff]
+  set i := c / (3 * nz) with hi
+  set J := c % (3 * nz) with hJ
+  have hJlt : J < 3 * nz := Nat.mod_lt _ (by omega)
+  have hjlt : J % nz < nz := Nat.mod_lt _ hnz
+  have e1 : (i * nz + J % nz) / nz = i := by
+    rw [Nat.add_comm, Nat.add_mul_div_right _ _ hnz, Nat.div_eq_of_lt hjlt, zero_add]
+  have e2 : (i * nz + J % nz) % nz = J % nz := by
+    rw [Nat.add_comm, Nat.add_mul_mod_self_right, Nat.mod_mod]
+  rw [e1, e2]
+  -- J = j + m nz
+  have hJdecomp : (J : ℚ) = ((J % nz : ℕ) : ℚ) + ((J / nz : ℕ) : ℚ) * nz := by
+    have := Nat.mod_add_div J nz
+    have h2 : ((J % nz + nz * (J / nz) : ℕ) : ℚ) = J := by rw [this]
+    push_cast at h2; linarith
+  set j := J % nz with hj
+  set m := J / nz with hm
+  have hm2 : m ≤ 2 := by
+    have : m < 3 := Nat.div_lt_of_lt_mul (by omega)
+    omega
+  clear_value m
+  set w := zlo + ((j : ℚ) + 1 / 2) * dz - z0 with hw
+  have hjq : (0 : ℚ) ≤ j := Nat.cast_nonneg _
+  have hjq' : (j : ℚ) + 1 ≤ nz := by exact_mod_cast hjlt
+  -- z of the padded cell relative to the droplet
+  have hzJ : ∀ k : ℤ, (zlo - dz * nz) + ((J : ℚ) + 1 / 2) * dz - (z0 + (k : ℚ) * (dz * nz))
+      = w + (((m : ℤ) - 1 - k : ℤ) : ℚ) * (dz * nz) := by
+    intro k; rw [hJdecomp, hw]; push_cast; ring
+  constructor
+  · rintro ⟨hlt, hd⟩
+    have hinr : i < nr := by
+      by_contra hge
+      have : nr * nz ≤ i * nz := Nat.mul_le_mul_right _ (by omega)
+      omega
+    obtain ⟨k0, hk0⟩ := wrapDiff_congr (dz * nz) w
+    obtain ⟨r1, r2⟩ := wrapDiff_range (dz * nz) w hL
+    -- |k0| ≤ 1 because |w| < L
+    have hwl : -(dz * nz) < w ∧ w < dz * nz := by
+      rw [hw]; constructor <;> nlinarith [hz0.1, hz0.2]
+    have hk0b : -1 ≤ k0 ∧ k0 ≤ 1 := by
+      rw [hk0] at r1 r2
+      constructor
+      · by_contra hc
+        have : (k0 : ℚ) ≤ -2 := by exact_mod_cast (by omega : k0 ≤ -2)
+        nlinarith
+      · by_contra hc
+        have : (2 : ℚ) ≤ k0 := by exact_mod_cast (by omega : 2 ≤ k0)
+        nlinarith
+    refine ⟨ballAt dz nz z0 R ((m : ℤ) - 1 + k0),
+      (mem_balls5 dz nz z0 R _).mpr ⟨(m : ℤ) - 1 + k0, by omega, by omega, rfl⟩, ?_⟩
+    show cylMask dr (zlo - dz * nz) dz nr (3 * nz) _ R c = true
+    rw [cylMask_iff]
+    refine ⟨?_, ?_⟩
+    · calc c = 3 * nz * i + J := (Nat.div_add_mod c (3 * nz)).symm
+        _ < 3 * nz * i + 3 * nz := by omega
+        _ = 3 * nz * (i + 1) := by ring
+        _ ≤ 3 * nz * nr := Nat.mul_le_mul_left _ (by omega)
+        _ = nr * (3 * nz) := by ring
+    · rw [← hi, ← hJ, Nat.mod_eq_of_lt hinr, hzJ]
+      rw [Nat.mod_eq_of_lt hinr] at hd
+      have : w + ((((m : ℤ) - 1 - ((m : ℤ) - 1 + k0) : ℤ)) : ℚ) * (dz * nz) = wrapDiff (dz * nz) w := by
+        rw [hk0]; push_cast; ring
+      rw [this]; exact hd
+  · rintro ⟨b, hb, hc⟩
+    obtain ⟨k, _, _, rfl⟩ := (mem_balls5 dz nz z0 R b).mp hb
+    have hc' : cylMask dr (zlo - dz * nz) dz nr (3 * nz) (z0 + (k : ℚ) * (dz * nz)) R c = true := hc
+    rw [cylMask_iff] at hc'
+    obtain ⟨hclt, hd⟩ := hc'
+    rw [← hi, ← hJ, hzJ] at hd
+    have hinr : i < nr := by
+      rw [hi]; exact Nat.div_lt_of_lt_mul (by rw [Nat.mul_comm]; exact hclt)
+    rw [Nat.mod_eq_of_lt hinr] at hd ⊢
+    refine ⟨?_, ?_⟩
+    · calc i * nz + j < i * nz + nz := by omega
+        _ = (i + 1) * nz := by ring
+        _ ≤ nr * nz := Nat.mul_le_mul_right _ (by omega)
+    · have hmin := wrapDiff_min (dz * nz) w _ hL ((m : ℤ) - 1 - k) rfl
+      nlinarith [hmin]
+
+
+theorem balls5_separated (hdr : 0 < dr) (hdz : 0 < dz) (hnr : 0 < nr) (hnz : 0 < nz) (hR : 0 ≤ R)
+    (hmax : ℚ) (hdr' : dr ≤ hmax) (hdz' : dz ≤ hmax) (hres : 2 * R + hmax ≤ dz * nz) :
+    Separated (cylAxes dr (zlo - dz * nz) dz nr (3 * nz)) (balls5 dz nz z0 R) := by
+  set axes := cylAxes dr (zlo - dz * nz) dz nr (3 * nz) with haxes
+  have h0 : 0 ≤ hmax := le_trans hdz.le hdz'
+  apply separated_of_distances axes _ _ _ hmax _ h0
+  · intro b1 hb1 b2 hb2 hne
+    obtain ⟨k1, _, _, rfl⟩ := (mem_balls5 dz nz z0 R b1).mp hb1
+    obtain ⟨k2, _, _, rfl⟩ := (mem_balls5 dz nz z0 R b2).mp hb2
+    have hk : k1 ≠ k2 := fun h => hne (by rw [h])
+    have hcd : cdist2 axes (ballAt dz nz z0 R k1).1 (ballAt dz nz z0 R k2).1 = (((k1 - k2 : ℤ) : ℚ) * (dz * nz)) ^ 2 := by
+      unfold cdist2 cdiff
+      simp [haxes, cylAxes, ballAt, Finset.sum_range_succ]
+      ring
+    rw [hcd]
+    show (R + R + hmax) ^ 2 ≤ _
+    have hk1 : (1 : ℚ) ≤ ((k1 - k2 : ℤ) : ℚ) ^ 2 := by
+      have : (k1 - k2) ^ 2 ≥ 1 := by
+        have : k1 - k2 ≠ 0 := sub_ne_zero.mpr hk
+        nlinarith [sq_nonneg (k1 - k2), Int.one_le_abs this, sq_abs (k1 - k2), abs_nonneg (k1 - k2)]
+      exact_mod_cast this
+    have hL : 0 < dz * nz := mul_pos hdz (by exact_mod_cast hnz)
+    rw [mul_pow]
+    have h2 : (R + R + hmax) ^ 2 ≤ (dz * nz) ^ 2 := by nlinarith
+    nlinarith [sq_nonneg (dz * (nz : ℚ))]
+  · intro b hb
+    obtain ⟨k, _, _, rfl⟩ := (mem_balls5 dz nz z0 R b).mp hb
+    exact cyl_wf dr (zlo - dz * nz) dz nr (3 * nz) _ hdr hdz hnr (by omega)
+  · intro b hb
+    obtain ⟨k, _, _, rfl⟩ := (mem_balls5 dz nz z0 R b).mp hb
+    exact hR
+  · intro a ha
+    simp only [haxes, cylAxes, List.mem_cons, List.not_mem_nil, or_false] at ha
+    rcases ha with rfl | rfl
+    · exact hdr'
+    · exact hdz'
+
+
+/-- fold a cell of the padded image back into the box -/
+def foldCell (c : ℕ) : ℕ := c / (3 * nz) * nz + c % (3 * nz) % nz
+
+/-- number of periods by which the periodic difference of cell `c` (of the box) was wrapped -/
+def wrapsOf (c : ℕ) : ℚ :=
+  ((zlo + (((c % nz : ℕ) : ℚ) + 1 / 2) * dz - z0) - wrapDiff (dz * nz) (zlo + (((c % nz : ℕ) : ℚ) + 1 / 2) * dz - z0)) / (dz * nz)
+
+theorem foldCell_div (hnz : 0 < nz) (c : ℕ) : foldCell nz c / nz = c / (3 * nz) := by
+  unfold foldCell
+  rw [Nat.add_comm, Nat.add_mul_div_right _ _ hnz, Nat.div_eq_of_lt (Nat.mod_lt _ hnz), zero_add]
+
+theorem foldCell_mod (c : ℕ) : foldCell nz c % nz = c % (3 * nz) % nz := by
+  unfold foldCell
+  rw [Nat.add_comm, Nat.add_mul_mod_self_right, Nat.mod_mod]
+
+/-- **A periodic image that lies inside the padded image is a faithful copy of the droplet in the box**: folding is a
+bijection from its cells onto the cells the droplet covers in the periodic box; it keeps the radial index and moves the
+z index by whole periods (`1 + k − wraps`). -/
+theorem image_transfer (hdz : 0 < dz) (hnr : 0 < nr) (hnz : 0 < nz) (hR : 0 ≤ R) (h2R : 2 * R < dz * nz) (k : ℤ)
+    (hwhole : zlo - dz * nz + R ≤ z0 + (k : ℚ) * (dz * nz) ∧ z0 + (k : ℚ) * (dz * nz) + R ≤ zlo + 2 * (dz * nz)) :
+    let S := (Finset.range (nr * (3 * nz))).filter
+      (fun c => cylMask dr (zlo - dz * nz) dz nr (3 * nz) (z0 + (k : ℚ) * (dz * nz)) R c = true)
+    let T := (Finset.range (nr * nz)).filter (fun c => cylMaskP dr zlo dz nr nz z0 R c = true)
+    (∀ c ∈ S, foldCell nz c ∈ T ∧
+      ((c % (3 * nz) : ℕ) : ℚ) = ((foldCell nz c % nz : ℕ) : ℚ) + (1 + (k : ℚ) - wrapsOf zlo dz nz z0 (foldCell nz c)) * nz) ∧
+    Set.InjOn (foldCell nz) S ∧ Set.SurjOn (foldCell nz) S T := by
+  intro S T
+  have hL : 0 < dz * nz := mul_pos hdz (by exact_mod_cast hnz)
+  have hLne : dz * (nz : ℚ) ≠ 0 := ne_of_gt hL
+  have hSmem : ∀ c, c ∈ S ↔ cylMask dr (zlo - dz * nz) dz nr (3 * nz) (z0 + (k : ℚ) * (dz * nz)) R c = true := by
+    intro c
+    simp only [S, Finset.mem_filter, Finset.mem_range, and_iff_right_iff_imp]
+    intro h; exact ((cylMask_iff _ _ _ _ _ _ _ c).mp h).1
+  have hTmem : ∀ c, c ∈ T ↔ cylMaskP dr zlo dz nr nz z0 R c = true := by
+    intro c
+    simp only [T, Finset.mem_filter, Finset.mem_range, and_iff_right_iff_imp]
+    intro h; exact ((cylMaskP_iff _ _ _ _ _ _ _ c).mp h).1
+  -- facts about one covered cell of the padded image
+  have hcell : ∀ c ∈ S, c / (3 * nz) < nr ∧
+      wrapDiff (dz * nz) (zlo + (((c % (3 * nz) % nz : ℕ) : ℚ) + 1 / 2) * dz - z0)
+        = (zlo - dz * nz) + (((c % (3 * nz) : ℕ) : ℚ) + 1 / 2) * dz - (z0 + (k : ℚ) * (dz * nz)) ∧
+      ((c % (3 * nz) : ℕ) : ℚ) = ((c % (3 * nz) % nz : ℕ) : ℚ)
+        + (1 + (k : ℚ) - ((zlo + (((c % (3 * nz) % nz : ℕ) : ℚ) + 1 / 2) * dz - z0)
+            - wrapDiff (dz * nz) (zlo + (((c % (3 * nz) % nz : ℕ) : ℚ) + 1 / 2) * dz - z0)) / (dz * nz)) * nz := by
+    intro c hc
+    have hm := (hSmem c).mp hc
+    have hz := cylCov_z dr (zlo - dz * nz) dz nr (3 * nz) _ R hR hm
+    obtain ⟨hclt, _⟩ := (cylMask_iff _ _ _ _ _ _ _ c).mp hm
+    have hinr : c / (3 * nz) < nr := Nat.div_lt_of_lt_mul (by rw [Nat.mul_comm]; exact hclt)
+    set J := c % (3 * nz) with hJ
+    have hJdecomp : (J : ℚ) = ((J % nz : ℕ) : ℚ) + ((J / nz : ℕ) : ℚ) * nz := by
+      have := Nat.mod_add_div J nz
+      have h2 : ((J % nz + nz * (J / nz) : ℕ) : ℚ) = J := by rw [this]
+      push_cast at h2; linarith
+    set j := J % nz with hj
+    set m := J / nz with hmdef
+    set w := zlo + ((j : ℚ) + 1 / 2) * dz - z0 with hw
+    set u := (zlo - dz * nz) + ((J : ℚ) + 1 / 2) * dz - (z0 + (k : ℚ) * (dz * nz)) with hu
+    have huw : u = w - (((k : ℤ) + 1 - (m : ℤ) : ℤ) : ℚ) * (dz * nz) := by
+      rw [hu, hw, hJdecomp]; push_cast; ring
+    have habs := abs_lt.mp hz
+    have hwd : wrapDiff (dz * nz) w = u :=
+      wrapDiff_unique (dz * nz) w u hL _ huw (by linarith [habs.1]) (by linarith [habs.2])
+    refine ⟨hinr, hwd, ?_⟩
+    rw [hwd, huw, hJdecomp]
+    push_cast
+    field_simp
+    ring
+  refine ⟨?_, ?_, ?_⟩
+  · intro c hc
+    obtain ⟨hinr, hwd, hJq⟩ := hcell c hc
+    have hm := (hSmem c).mp hc
+    obtain ⟨_, hd⟩ := (cylMask_iff _ _ _ _ _ _ _ c).mp hm
+    refine ⟨(hTmem _).mpr ((cylMaskP_iff _ _ _ _ _ _ _ _).mpr ⟨?_, ?_⟩), ?_⟩
+    · unfold foldCell
+      have : c % (3 * nz) % nz < nz := Nat.mod_lt _ hnz
+      calc c / (3 * nz) * nz + c % (3 * nz) % nz < c / (3 * nz) * nz + nz := by omega
+        _ = (c / (3 * nz) + 1) * nz := by ring
+        _ ≤ nr * nz := Nat.mul_le_mul_right _ (by omega)
+    · rw [foldCell_div nz hnz, foldCell_mod, hwd]
+      exact hd
+    · unfold wrapsOf
+      rw [foldCell_mod]
+      exact hJq
+  · intro c hc c' hc' hff
+    obtain ⟨_, _, hJq⟩ := hcell c hc
+    obtain ⟨_, _, hJq'⟩ := hcell c' hc'
+    have hdiv : c / (3 * nz) = c' / (3 * nz) := by
+      rw [← foldCell_div nz hnz c, ← foldCell_div nz hnz c', hff]
+    have hmod : c % (3 * nz) % nz = c' % (3 * nz) % nz := by
+      rw [← foldCell_mod nz c, ← foldCell_mod nz c', hff]
+    rw [hmod] at hJq
+    have : ((c % (3 * nz) : ℕ) : ℚ) = ((c' % (3 * nz) : ℕ) : ℚ) := by rw [hJq, hJq']
+    have hJeq : c % (3 * nz) = c' % (3 * nz) := by exact_mod_cast this
+    calc c = 3 * nz * (c / (3 * nz)) + c % (3 * nz) := (Nat.div_add_mod c (3 * nz)).symm
+      _ = 3 * nz * (c' / (3 * nz)) + c' % (3 * nz) := by rw [hdiv, hJeq]
+      _ = c' := Nat.div_add_mod c' (3 * nz)
+  · intro ct hct
+    have hP := (hTmem ct).mp hct
+    obtain ⟨hctlt, hd⟩ := (cylMaskP_iff _ _ _ _ _ _ _ ct).mp hP
+    set i := ct / nz with hi
+    set j := ct % nz with hj
+    have hjlt : j < nz := Nat.mod_lt _ hnz
+    have hinr : i < nr := Nat.div_lt_of_lt_mul (by rw [Nat.mul_comm]; exact hctlt)
+    rw [Nat.mod_eq_of_lt hinr] at hd
+    set w := zlo + ((j : ℚ) + 1 / 2) * dz - z0 with hw
+    obtain ⟨k0, hk0⟩ := wrapDiff_congr (dz * nz) w
+    set v := wrapDiff (dz * nz) w with hv
+    have hvR : |v| < R := by
+      have : v * v < R * R := by nlinarith [mul_self_nonneg ((((i : ℕ) : ℚ) + 1 / 2) * dr)]
+      exact abs_lt.mpr (abs_lt_of_sq_lt_sq' (by nlinarith) hR)
+    have hvb := abs_lt.mp hvR
+    have hjq : (0 : ℚ) ≤ j := Nat.cast_nonneg _
+    have hjq' : (j : ℚ) + 1 ≤ nz := by exact_mod_cast hjlt
+    -- the copy index
+    have hm0 : 0 ≤ 1 + k - k0 := by
+      by_contra hneg
+      have : ((1 + k - k0 : ℤ) : ℚ) ≤ -1 := by exact_mod_cast (by omega : 1 + k - k0 ≤ -1)
+      push_cast at this
+      nlinarith [hwhole.1]
+    have hm2 : 1 + k - k0 ≤ 2 := by
+      by_contra hgt
+      have : (3 : ℚ) ≤ ((1 + k - k0 : ℤ) : ℚ) := by exact_mod_cast (by omega : 3 ≤ 1 + k - k0)
+      push_cast at this
+      nlinarith [hwhole.2]
+    obtain ⟨m, hm⟩ : ∃ m : ℕ, (m : ℤ) = 1 + k - k0 := ⟨(1 + k - k0).toNat, Int.toNat_of_nonneg hm0⟩
+    have hmle : m ≤ 2 := by omega
+    have hmq : (m : ℚ) = 1 + k - k0 := by exact_mod_cast hm
+    set J := j + m * nz with hJ
+    have hJlt : J < 3 * nz := by
+      calc J = j + m * nz := rfl
+        _ < nz + m * nz := by omega
+        _ = (m + 1) * nz := by ring
+        _ ≤ 3 * nz := Nat.mul_le_mul_right _ (by omega)
+    set c := 3 * nz * i + J with hc
+    have hcdiv : c / (3 * nz) = i := by
+      rw [hc, Nat.add_comm, Nat.add_mul_div_left _ _ (by omega : 0 < 3 * nz), Nat.div_eq_of_lt hJlt, zero_add]
+    have hcmod : c % (3 * nz) = J := by
+      rw [hc, Nat.add_comm, Nat.add_mul_mod_self_left, Nat.mod_eq_of_lt hJlt]
+    have hJmod : J % nz = j := by rw [hJ, Nat.add_mul_mod_self_right, Nat.mod_eq_of_lt hjlt]
+    have hcS : c ∈ S := by
+      rw [hSmem, cylMask_iff]
+      refine ⟨?_, ?_⟩
+      · calc c = 3 * nz * i + J := rfl
+          _ < 3 * nz * i + 3 * nz := by omega
+          _ = 3 * nz * (i + 1) := by ring
+          _ ≤ 3 * nz * nr := Nat.mul_le_mul_left _ (by omega)
+          _ = nr * (3 * nz) := by ring
+      · rw [hcdiv, hcmod, Nat.mod_eq_of_lt hinr]
+        have : (zlo - dz * nz) + ((J : ℚ) + 1 / 2) * dz - (z0 + (k : ℚ) * (dz * nz)) = v := by
+          rw [hk0, hw, hJ]; push_cast; rw [hmq]; ring
+        rw [this]; exact hd
+    refine ⟨c, hcS, ?_⟩
+    unfold foldCell
+    rw [hcdiv, hcmod, hJmod, hi, hj]
+    exact Nat.div_add_mod' ct nz
+
+
+/-- unwrapped mean height (cell units) of the droplet's cells in the periodic box -/
+def zetaP : ℚ :=
+  (∑ c ∈ (Finset.range (nr * nz)).filter (fun c => cylMaskP dr zlo dz nr nz z0 R c = true),
+      (((c % nz : ℕ) : ℚ) - wrapsOf zlo dz nz z0 c * nz))
+    / (((Finset.range (nr * nz)).filter (fun c => cylMaskP dr zlo dz nr nz z0 R c = true)).card : ℚ) + 1 / 2
+
+/-- weight (volume / π dr² dz) of the cells the droplet covers in the periodic box -/
+def weightP : ℕ := (((List.range (nr * nz)).filter (cylMaskP dr zlo dz nr nz z0 R)).map fun c => 2 * (c / nz) + 1).sum
+
+theorem list_filter_sum_gen {M : Type} [AddCommMonoid M] (n : ℕ) (p : ℕ → Bool) (f : ℕ → M) :
+    (((List.range n).filter p).map f).sum = ∑ c ∈ (Finset.range n).filter (fun c => p c = true), f c := by
+  rw [← List.sum_toFinset f ((List.nodup_range).filter _), List.toFinset_filter, List.toFinset_range]
+
+/-- the cluster of a periodic image that lies inside the padded image: exact weight, and its height is the unwrapped
+mean height plus `k` periods -/
+theorem image_cluster (hdz : 0 < dz) (hnr : 0 < nr) (hnz : 0 < nz) (hR : 0 ≤ R) (h2R : 2 * R < dz * nz) (k : ℤ)
+    (hwhole : zlo - dz * nz + R ≤ z0 + (k : ℚ) * (dz * nz) ∧ z0 + (k : ℚ) * (dz * nz) + R ≤ zlo + 2 * (dz * nz))
+    (hne : ∃ c, cylMaskP dr zlo dz nr nz z0 R c = true) (lbl : ℕ) :
+    let cl : Cluster := ⟨lbl, cylCov dr (zlo - dz * nz) dz nr (3 * nz) (z0 + (k : ℚ) * (dz * nz)) R⟩
+    cl.cells ≠ [] ∧ Cluster.weight (3 * nz) cl = weightP dr zlo dz nr nz z0 R ∧
+      Cluster.zpos (3 * nz) cl - nz = zetaP dr zlo dz nr nz z0 R + (k : ℚ) * nz := by
+  intro cl
+  obtain ⟨hmap, hinj, hsurj⟩ := image_transfer dr zlo dz nr nz z0 R hdz hnr hnz hR h2R k hwhole
+  set S := (Finset.range (nr * (3 * nz))).filter
+    (fun c => cylMask dr (zlo - dz * nz) dz nr (3 * nz) (z0 + (k : ℚ) * (dz * nz)) R c = true) with hS
+  set T := (Finset.range (nr * nz)).filter (fun c => cylMaskP dr zlo dz nr nz z0 R c = true) with hT
+  have hTne : T.Nonempty := by
+    obtain ⟨c, hc⟩ := hne
+    exact ⟨c, by simp only [hT, Finset.mem_filter, Finset.mem_range]; exact ⟨((cylMaskP_iff _ _ _ _ _ _ _ c).mp hc).1, hc⟩⟩
+  have hcard : S.card = T.card := Finset.card_nbij (foldCell nz) (fun c hc => (hmap c hc).1) hinj hsurj
+  have hTpos : (0 : ℚ) < T.card := by exact_mod_cast hTne.card_pos
+  refine ⟨?_, ?_, ?_⟩
+  · obtain ⟨ct, hct⟩ := hTne
+    obtain ⟨c, hc, _⟩ := hsurj hct
+    intro hnil
+    have : c ∈ cylCov dr (zlo - dz * nz) dz nr (3 * nz) (z0 + (k : ℚ) * (dz * nz)) R := by
+      rw [mem_cylCov]; exact (Finset.mem_filter.mp hc).2
+    rw [show cl.cells = cylCov dr (zlo - dz * nz) dz nr (3 * nz) (z0 + (k : ℚ) * (dz * nz)) R from rfl] at hnil
+    rw [hnil] at this; simp at this
+  · rw [cylCov_weight]
+    unfold cylCov weightP
+    rw [list_filter_sum_gen, list_filter_sum_gen]
+    exact Finset.sum_nbij (foldCell nz) (fun c hc => (hmap c hc).1) hinj hsurj
+      (fun c _ => by rw [foldCell_div nz hnz])
+  · unfold Cluster.zpos zIdx zetaP
+    rw [foldl_add_rat, zero_add]
+    show ((cylCov dr (zlo - dz * nz) dz nr (3 * nz) (z0 + (k : ℚ) * (dz * nz)) R).map fun c => ((c % (3 * nz) : ℕ) : ℚ)).sum
+      / ((cylCov dr (zlo - dz * nz) dz nr (3 * nz) (z0 + (k : ℚ) * (dz * nz)) R).length : ℚ) + 1 / 2 - nz = _
+    unfold cylCov
+    rw [list_filter_sum_gen, list_filter_card]
+    change (∑ c ∈ S, ((c % (3 * nz) : ℕ) : ℚ)) / (S.card : ℚ) + 1 / 2 - nz = (∑ c ∈ T, _) / (T.card : ℚ) + 1 / 2 + _
+    have hsum : ∑ c ∈ S, ((c % (3 * nz) : ℕ) : ℚ)
+        = ∑ ct ∈ T, (((ct % nz : ℕ) : ℚ) + (1 + (k : ℚ) - wrapsOf zlo dz nz z0 ct) * nz) :=
+      Finset.sum_nbij (foldCell nz) (fun c hc => (hmap c hc).1) hinj hsurj (fun c hc => (hmap c hc).2)
+    rw [hsum, hcard]
+    have hsplit : ∑ ct ∈ T, (((ct % nz : ℕ) : ℚ) + (1 + (k : ℚ) - wrapsOf zlo dz nz z0 ct) * nz)
+        = ∑ ct ∈ T, (((ct % nz : ℕ) : ℚ) - wrapsOf zlo dz nz z0 ct * nz) + (T.card : ℚ) * ((1 + (k : ℚ)) * nz) := by
+      rw [Finset.card_eq_sum_ones]
+      push_cast
+      rw [Finset.sum_mul, ← Finset.sum_add_distrib]
+      apply Finset.sum_congr rfl; intro c _; ring
+    rw [hsplit]
+    generalize (∑ ct ∈ T, (((ct % nz : ℕ) : ℚ) - wrapsOf zlo dz nz z0 ct * nz)) = sig0
+    field_simp
+    ring
+
+
+/-- a periodic image whose cluster is kept by the box filter lies inside the padded image -/
+theorem kept_is_whole (hdz : 0 < dz) (hR : 0 ≤ R) (h2R : 2 * R < dz * nz) (zk : ℚ) (lbl : ℕ)
+    (hne : cylCov dr (zlo - dz * nz) dz nr (3 * nz) zk R ≠ [])
+    (h0 : 0 ≤ Cluster.zpos (3 * nz) ⟨lbl, cylCov dr (zlo - dz * nz) dz nr (3 * nz) zk R⟩ - nz)
+    (h1 : Cluster.zpos (3 * nz) ⟨lbl, cylCov dr (zlo - dz * nz) dz nr (3 * nz) zk R⟩ - nz ≤ nz) :
+    zlo - dz * nz + R ≤ zk ∧ zk + R ≤ zlo + 2 * (dz * nz) := by
+  set cl : Cluster := ⟨lbl, cylCov dr (zlo - dz * nz) dz nr (3 * nz) zk R⟩ with hcl
+  have hcell : ∀ c ∈ cl.cells, |zlo - dz * nz + (((c % (3 * nz) : ℕ) : ℚ) + 1 / 2) * dz - zk| < R := by
+    intro c hc
+    exact cylCov_z dr (zlo - dz * nz) dz nr (3 * nz) zk R hR ((mem_cylCov _ _ _ _ _ _ _ c).mp hc)
+  constructor
+  · by_contra hcon
+    push Not at hcon
+    have : cl.zpos (3 * nz) < nz := by
+      apply zpos_lt (3 * nz) cl hne
+      intro c hc
+      have := (abs_lt.mp (hcell c hc)).2
+      have h3 : ((zIdx (3 * nz) c : ℚ) + 1 / 2) * dz < (nz : ℚ) * dz := by
+        unfold zIdx; nlinarith
+      exact lt_of_mul_lt_mul_right h3 hdz.le
+    linarith
+  · by_contra hcon
+    push Not at hcon
+    have : (2 * nz : ℚ) < cl.zpos (3 * nz) := by
+      apply lt_zpos (3 * nz) cl hne
+      intro c hc
+      have := (abs_lt.mp (hcell c hc)).1
+      have h3 : (2 * (nz : ℚ)) * dz < ((zIdx (3 * nz) c : ℚ) + 1 / 2) * dz := by
+        unfold zIdx; nlinarith
+      exact lt_of_mul_lt_mul_right h3 hdz.le
+    linarith
+
+/-- no periodic image triggers the 'spanning' test -/
+theorem image_not_spanning (hdz : 0 < dz) (hR : 0 ≤ R) (h2R : 2 * R < dz * nz) (zk : ℚ) (lbl : ℕ) :
+    Cluster.spans (3 * nz) (⟨lbl, cylCov dr (zlo - dz * nz) dz nr (3 * nz) zk R⟩ : Cluster) nz = false := by
+  by_contra hcon
+  have hcon' : Cluster.spans (3 * nz) (⟨lbl, cylCov dr (zlo - dz * nz) dz nr (3 * nz) zk R⟩ : Cluster) nz = true := by
+    simpa using hcon
+  unfold Cluster.spans zIdx at hcon'
+  simp only [Bool.and_eq_true, List.any_eq_true, beq_iff_eq, decide_eq_true_eq] at hcon'
+  obtain ⟨⟨c1, hc1, hz1⟩, ⟨c2, hc2, hz2⟩⟩ := hcon'
+  have a1 := abs_lt.mp (cylCov_z dr (zlo - dz * nz) dz nr (3 * nz) zk R hR ((mem_cylCov _ _ _ _ _ _ _ c1).mp hc1))
+  have a2 := abs_lt.mp (cylCov_z dr (zlo - dz * nz) dz nr (3 * nz) zk R hR ((mem_cylCov _ _ _ _ _ _ _ c2).mp hc2))
+  rw [hz1] at a1
+  have hq : (nz : ℚ) ≤ ((c2 % (3 * nz) : ℕ) : ℚ) := by exact_mod_cast hz2
+  push_cast at a1
+  nlinarith
+
+
+/-- **C01 on a cylindrical grid with PERIODIC z, for the model of `_locate_droplets_in_mask_cylindrical`.**
+A droplet centred on the symmetry axis anywhere in the periodic box (also straddling the periodic boundary), shorter than
+the box by two cells (`2R + 2h ≤ L`, `h` a bound on the cell sizes) and covering at least one cell centre: the padded
+analysis is not abandoned, it hands on at least one candidate, and EVERY candidate handed to the overlap filter has
+exactly the weight of the cells the droplet covers in the periodic box, lies in the box `[0, nz)` (cell units) and within
+HALF A CELL of the droplet's height modulo the period.  (Two candidates arise only when the located height falls exactly
+on the boundary; they coincide after wrapping — repair 45d5185 — and the overlap filter keeps one: C10.) -/
+theorem C01_cylinder_periodic_model (hdr : 0 < dr) (hdz : 0 < dz) (hnr : 0 < nr) (hnz : 0 < nz) (hR : 0 ≤ R)
+    (hmax : ℚ) (hdr' : dr ≤ hmax) (hdz' : dz ≤ hmax) (hres : 2 * R + 2 * hmax ≤ dz * nz)
+    (hz0 : zlo ≤ z0 ∧ z0 < zlo + dz * nz) (hne : ∃ c, cylMaskP dr zlo dz nr nz z0 R c = true) :
+    ∃ cs, candidates nr nz true (cylMaskP dr zlo dz nr nz z0 R) = some cs ∧ cs ≠ [] ∧
+      ∀ p ∈ cs, p.2 = weightP dr zlo dz nr nz z0 R ∧ 0 ≤ p.1 ∧ p.1 < nz ∧
+        ∃ m : ℤ, |zlo + p.1 * dz - z0 - (m : ℚ) * (dz * nz)| < dz / 2 := by
+  have hL : 0 < dz * nz := mul_pos hdz (by exact_mod_cast hnz)
+  have hmax0 : 0 < hmax := lt_of_lt_of_le hdz hdz'
+  have h2R : 2 * R < dz * nz := by linarith
+  have hnzq : (1 : ℚ) ≤ nz := by exact_mod_cast hnz
+  set P := cylMaskP dr zlo dz nr nz z0 R with hPdef
+  set axes3 := cylAxes dr (zlo - dz * nz) dz nr (3 * nz) with haxes3
+  set balls := balls5 dz nz z0 R with hballs
+  have hP3 : padded nz P = emulsionMask axes3 balls := funext (padded_eq_emulsion dr zlo dz nr nz z0 R hdz hnz hz0)
+  have hsep := balls5_separated dr zlo dz nr nz z0 R hdr hdz hnr hnz hR hmax hdr' hdz' (by linarith)
+  have hlen : ∀ b ∈ balls, b.1.length = 2 := by
+    intro b hb
+    obtain ⟨k, _, _, rfl⟩ := (mem_balls5 dz nz z0 R b).mp hb
+    rfl
+  obtain ⟨hA, hB⟩ := cyl_clusters_are_balls dr (zlo - dz * nz) dz nr (3 * nz) hdr hdz hnr (by omega) balls hlen hsep
+  set clusters := clustersOf (labelExec [nr, 3 * nz] (emulsionMask axes3 balls)) with hclusters
+  -- every cluster consists of the cells of one periodic image
+  have hclk : ∀ cl ∈ clusters, ∃ k : ℤ, -2 ≤ k ∧ k ≤ 2 ∧
+      cl = ⟨cl.label, cylCov dr (zlo - dz * nz) dz nr (3 * nz) (z0 + (k : ℚ) * (dz * nz)) R⟩ ∧
+      cylCov dr (zlo - dz * nz) dz nr (3 * nz) (z0 + (k : ℚ) * (dz * nz)) R ≠ [] := by
+    intro cl hcl
+    obtain ⟨b, hb, ⟨c, hc⟩, hcells⟩ := hA cl hcl
+    obtain ⟨k, hk1, hk2, rfl⟩ := (mem_balls5 dz nz z0 R b).mp hb
+    refine ⟨k, hk1, hk2, ?_, ?_⟩
+    · cases cl; simp only [Cluster.mk.injEq, true_and]; exact hcells
+    · intro hnil
+      have : c ∈ cylCov dr (zlo - dz * nz) dz nr (3 * nz) (z0 + (k : ℚ) * (dz * nz)) R :=
+        (mem_cylCov _ _ _ _ _ _ _ c).mpr hc
+      rw [hnil] at this; simp at this
+  have hon : ∀ cl ∈ clusters, Cluster.onAxis (3 * nz) cl = true := by
+    intro cl hcl
+    obtain ⟨k, _, _, hcleq, hnn⟩ := hclk cl hcl
+    rw [hcleq]
+    apply cylCov_onAxis dr (zlo - dz * nz) dz nr (3 * nz) _ R hdr hnr (by omega)
+    obtain ⟨c, hc⟩ := List.exists_mem_of_ne_nil _ hnn
+    exact ⟨c, (mem_cylCov _ _ _ _ _ _ _ c).mp hc⟩
+  have hsp : ∀ cl ∈ clusters, Cluster.spans (3 * nz) cl nz = false := by
+    intro cl hcl
+    obtain ⟨k, _, _, hcleq, _⟩ := hclk cl hcl
+    rw [hcleq]
+    exact image_not_spanning dr zlo dz nr nz R hdz hR h2R _ _
+  have hsingle : single nr (3 * nz) nz (padded nz P) =
+      some (clusters.map fun cl => (cl.zpos (3 * nz), cl.weight (3 * nz))) := by
+    unfold single
+    rw [hP3]
+    simp only
+    rw [← hclusters, List.filter_eq_self.mpr hon]
+    have : (clusters.any fun cl => cl.spans (3 * nz) nz) = false := by
+      rw [List.any_eq_false]; intro cl hcl; rw [hsp cl hcl]; simp
+    rw [this]; simp
+  -- the candidates
+  have hcand : candidates nr nz true P = some
+      ((((clusters.map fun cl => (cl.zpos (3 * nz), cl.weight (3 * nz))).map fun p => (p.1 - (nz : ℚ), p.2)).filter
+        fun p => decide (0 ≤ p.1) && decide (p.1 ≤ (nz : ℚ))).map fun p => (if p.1 == (nz : ℚ) then 0 else p.1, p.2)) := by
+    unfold candidates
+    simp only [if_true, hsingle]
+  refine ⟨_, hcand, ?_, ?_⟩
+  · -- at least one candidate: the image 0, or the neighbour that carries its height into the box
+    have hw0 : zlo - dz * nz + R ≤ z0 + ((0 : ℤ) : ℚ) * (dz * nz) ∧ z0 + ((0 : ℤ) : ℚ) * (dz * nz) + R ≤ zlo + 2 * (dz * nz) := by
+      push_cast; constructor <;> nlinarith [hz0.1, hz0.2]
+    obtain ⟨hne0, _, hz0pos⟩ := image_cluster dr zlo dz nr nz z0 R hdz hnr hnz hR h2R 0 hw0 hne 0
+    have hhalf := cylCov_zpos dr (zlo - dz * nz) dz nr (3 * nz) (z0 + ((0 : ℤ) : ℚ) * (dz * nz)) R hdr hdz hnr (by omega) hR 0
+      (by push_cast; constructor <;> nlinarith [hw0.1, hw0.2])
+      (by obtain ⟨c, hc⟩ := List.exists_mem_of_ne_nil _ hne0; exact ⟨c, (mem_cylCov _ _ _ _ _ _ _ c).mp hc⟩)
+    set ζ := zetaP dr zlo dz nr nz z0 R with hζ
+    -- |zlo + ζ dz − z0| < dz/2
+    have hζb : |zlo + ζ * dz - z0| < dz / 2 := by
+      have e : Cluster.zpos (3 * nz) ⟨0, cylCov dr (zlo - dz * nz) dz nr (3 * nz) (z0 + ((0 : ℤ) : ℚ) * (dz * nz)) R⟩
+          = ζ + nz := by push_cast at hz0pos ⊢; linarith
+      rw [e] at hhalf
+      have : zlo - dz * nz + (ζ + nz) * dz - (z0 + ((0 : ℤ) : ℚ) * (dz * nz)) = zlo + ζ * dz - z0 := by push_cast; ring
+      rw [this] at hhalf; exact hhalf
+    obtain ⟨hζ1, hζ2⟩ := abs_lt.mp hζb
+    -- choose the image
+    obtain ⟨k, hk1, hk2, hwk, hq0, hq1⟩ : ∃ k : ℤ, -2 ≤ k ∧ k ≤ 2 ∧
+        (zlo - dz * nz + R ≤ z0 + (k : ℚ) * (dz * nz) ∧ z0 + (k : ℚ) * (dz * nz) + R ≤ zlo + 2 * (dz * nz)) ∧
+        0 ≤ ζ + (k : ℚ) * nz ∧ ζ + (k : ℚ) * nz ≤ nz := by
+      rcases lt_or_ge ζ 0 with hneg | hnn
+      · refine ⟨1, by omega, by omega, ?_, ?_, ?_⟩
+        · push_cast; constructor <;> nlinarith
+        · push_cast; nlinarith
+        · push_cast; nlinarith
+      · rcases le_or_gt ζ nz with hle | hgt
+        · exact ⟨0, by omega, by omega, hw0, by push_cast; linarith, by push_cast; linarith⟩
+        · refine ⟨-1, by omega, by omega, ?_, ?_, ?_⟩
+          · push_cast; constructor <;> nlinarith
+          · push_cast; nlinarith
+          · push_cast; nlinarith
+    obtain ⟨hnek, hwk', hzk⟩ := image_cluster dr zlo dz nr nz z0 R hdz hnr hnz hR h2R k hwk hne 0
+    obtain ⟨c, hc⟩ := List.exists_mem_of_ne_nil _ hnek
+    have hcm : cylMask dr (zlo - dz * nz) dz nr (3 * nz) (z0 + (k : ℚ) * (dz * nz)) R c = true := (mem_cylCov _ _ _ _ _ _ _ c).mp hc
+    obtain ⟨cl, hcl, hcells⟩ := hB (ballAt dz nz z0 R k) ((mem_balls5 dz nz z0 R _).mpr ⟨k, hk1, hk2, rfl⟩) ⟨c, hcm⟩
+    have hcleq : cl = ⟨cl.label, cylCov dr (zlo - dz * nz) dz nr (3 * nz) (z0 + (k : ℚ) * (dz * nz)) R⟩ := by
+      cases cl; simp only [Cluster.mk.injEq, true_and]; exact hcells
+    have hzcl : cl.zpos (3 * nz) - nz = ζ + (k : ℚ) * nz := by
+      rw [hcleq]
+      exact (image_cluster dr zlo dz nr nz z0 R hdz hnr hnz hR h2R k hwk hne cl.label).2.2
+    intro hnil
+    have hmem : (if (cl.zpos (3 * nz) - (nz : ℚ)) == (nz : ℚ) then (0 : ℚ) else cl.zpos (3 * nz) - (nz : ℚ), cl.weight (3 * nz)) ∈
+        ((((clusters.map fun cl => (cl.zpos (3 * nz), cl.weight (3 * nz))).map fun p => (p.1 - (nz : ℚ), p.2)).filter
+          fun p => decide (0 ≤ p.1) && decide (p.1 ≤ (nz : ℚ))).map fun p => (if p.1 == (nz : ℚ) then 0 else p.1, p.2)) := by
+      apply List.mem_map.mpr
+      refine ⟨(cl.zpos (3 * nz) - (nz : ℚ), cl.weight (3 * nz)), ?_, rfl⟩
+      apply List.mem_filter.mpr
+      refine ⟨?_, ?_⟩
+      · apply List.mem_map.mpr
+        exact ⟨(cl.zpos (3 * nz), cl.weight (3 * nz)), List.mem_map.mpr ⟨cl, hcl, rfl⟩, rfl⟩
+      · simp only [Bool.and_eq_true, decide_eq_true_eq]
+        rw [hzcl]; exact ⟨hq0, hq1⟩
+    rw [hnil] at hmem; simp at hmem
+  · intro p hp
+    obtain ⟨q, hq, rfl⟩ := List.mem_map.mp hp
+    obtain ⟨hqm, hkeep⟩ := List.mem_filter.mp hq
+    simp only [Bool.and_eq_true, decide_eq_true_eq] at hkeep
+    obtain ⟨q', hq', rfl⟩ := List.mem_map.mp hqm
+    obtain ⟨cl, hcl, rfl⟩ := List.mem_map.mp hq'
+    simp only at hkeep ⊢
+    obtain ⟨k, hk1, hk2, hcleq, hnn⟩ := hclk cl hcl
+    have hkeep' : 0 ≤ Cluster.zpos (3 * nz) ⟨cl.label, cylCov dr (zlo - dz * nz) dz nr (3 * nz) (z0 + (k : ℚ) * (dz * nz)) R⟩ - nz ∧
+        Cluster.zpos (3 * nz) ⟨cl.label, cylCov dr (zlo - dz * nz) dz nr (3 * nz) (z0 + (k : ℚ) * (dz * nz)) R⟩ - nz ≤ nz := by
+      rw [← hcleq]; exact hkeep
+    have hwk := kept_is_whole dr zlo dz nr nz R hdz hR h2R _ cl.label hnn hkeep'.1 hkeep'.2
+    obtain ⟨_, hwt, hzk⟩ := image_cluster dr zlo dz nr nz z0 R hdz hnr hnz hR h2R k hwk hne cl.label
+    have hhalf := cylCov_zpos dr (zlo - dz * nz) dz nr (3 * nz) (z0 + (k : ℚ) * (dz * nz)) R hdr hdz hnr (by omega) hR cl.label
+      (by push_cast; constructor <;> nlinarith [hwk.1, hwk.2])
+      (by obtain ⟨c, hc⟩ := List.exists_mem_of_ne_nil _ hnn; exact ⟨c, (mem_cylCov _ _ _ _ _ _ _ c).mp hc⟩)
+    rw [← hcleq] at hwt hhalf
+    set q1 := cl.zpos (3 * nz) - (nz : ℚ) with hq1
+    have hhalf' : |zlo + q1 * dz - z0 - (k : ℚ) * (dz * nz)| < dz / 2 := by
+      have : zlo - dz * nz + cl.zpos (3 * nz) * dz - (z0 + (k : ℚ) * (dz * nz)) = zlo + q1 * dz - z0 - (k : ℚ) * (dz * nz) := by
+        rw [hq1]; ring
+      rw [this] at hhalf; exact hhalf
+    refine ⟨hwt, ?_⟩
+    by_cases he : q1 = (nz : ℚ)
+    · have hbeq : (q1 == (nz : ℚ)) = true := by simpa using he
+      simp only [hbeq, if_true]
+      refine ⟨le_rfl, by linarith, k - 1, ?_⟩
+      have : zlo + (0 : ℚ) * dz - z0 - ((k - 1 : ℤ) : ℚ) * (dz * nz) = zlo + q1 * dz - z0 - (k : ℚ) * (dz * nz) := by
+        rw [he]; push_cast; ring
+      rw [this]; exact hhalf'
+    · have hbeq : (q1 == (nz : ℚ)) = false := by simpa using he
+      simp only [hbeq]
+      exact ⟨hkeep.1, lt_of_le_of_ne hkeep.2 he, k, hhalf'⟩
+
+end cylper
+
+/-- non-vacuity: 4 × 8 cells of size 1, periodic z, droplet of radius 2.2 on the axis at height 0.2, i.e. across the
+periodic boundary (`2R + 2h = 6.4 ≤ 8`): it covers 7 cells on both sides of the boundary, and the executed model hands on
+one candidate at 3/14 ≈ 0.21 cells (within half a cell of 0.2) with the weight 13 of those cells -/
+example : cylMaskP 1 0 1 4 8 (1/5) (11/5) 15 = true := by decide +kernel
+example : Cyl.candidates 4 8 true (cylMaskP 1 0 1 4 8 (1/5) (11/5)) = some [(3/14, 13)] ∧
+    weightP 1 0 1 4 8 (1/5) (11/5) = 13 := by decide +kernel
+end DV.C01
